@@ -45,14 +45,14 @@ Theorem C10_blocks_fuel : forall g c out, wf g -> In c (comps_ref g) ->
 Proof. exact component_loop_fuel. Qed.
 Print Assumptions C10_blocks_fuel.
 
-(* non-vacuity: a triangle 0-1-2, a bridge 2-3, a 4-cycle 3-4-5-6, a pendant edge 5-7, the
-   isolated vertex 8, and the separate edge 9-10 *)
+(* non-vacuity: a triangle 0-1-2, a bridge 2-3, a triangle 3-4-5, the isolated vertex 6, and the
+   separate edge 7-8 *)
 Definition ex_blocks_graph : graph :=
-  of_edges 11 [(0,1); (1,2); (2,0); (2,3); (3,4); (4,5); (5,6); (6,3); (5,7); (9,10)].
+  of_edges 9 [(0,1); (1,2); (2,0); (2,3); (3,4); (4,5); (5,3); (7,8)].
 
 Example C10_blocks_nonvacuous :
   biconnected_components_go ex_blocks_graph =
-    Done ([[9; 10]; [8]; [5; 7]; [3; 4; 5; 6]; [2; 3]; [0; 1; 2]], [2; 3; 5]) /\
-  artic_ref ex_blocks_graph = [2; 3; 5] /\
-  length (blocks_ref ex_blocks_graph) = 6.
+    Done ([[7; 8]; [6]; [3; 4; 5]; [2; 3]; [0; 1; 2]], [2; 3]) /\
+  artic_ref ex_blocks_graph = [2; 3] /\
+  length (blocks_ref ex_blocks_graph) = 5.
 Proof. vm_compute. repeat split. Qed.
